@@ -410,6 +410,10 @@ def mofunCliTrace (find_path : Option String) (replace_path : Option String) (du
   else
     ["print('INFO: Trying input using ASE: %s' % inputpath)",
      "atoms = Atoms.from_ase_atoms(ase.io.read(inputpath))"]) ++
+  (if (Option.isSome extract_uc_path) then
+    ["atoms.cell = Atoms.load(extract_uc_path).cell"]
+  else
+    []) ++
   (if (Option.isSome dumppath) then
     ["l1 = ase.io.read(dumppath, format='lammps-dump-text')",
      "assert len(l1.positions) == len(atoms.positions)",
@@ -432,10 +436,6 @@ def mofunCliTrace (find_path : Option String) (replace_path : Option String) (du
        "atoms = atoms.replicate(l4)"]
     else
       ["print('WARNING: Minimimum image convention is only implemented for orthorhombic structures, please use --replicate')"])
-  else
-    []) ++
-  (if (Option.isSome extract_uc_path) then
-    ["atoms.cell = Atoms.load(extract_uc_path).cell"]
   else
     []) ++
   (if pp then
